@@ -232,6 +232,10 @@ func c17GenDoc(t *tape.Tape) []byte {
 		if t.Chance(1, 5) {
 			// around the widths a scope stack could be packed into
 			d = []int{31, 32, 33, 63, 64, 65, 66, 127, 128, 129, 255, 256, 257, 513, 1025}[t.Intn(15)] + t.Intn(3)
+			if t.Chance(1, 12) {
+				// the deepest nesting encoding/json accepts is 10000
+				d = []int{2047, 4096, 9998, 9999, 10000}[t.Intn(5)]
+			}
 		}
 		for i := 0; i < d; i++ {
 			if t.Bool() {
